@@ -29,12 +29,21 @@ def classify(b, has_nested):
     if has_nested and any(x.split('_')[0] in ('SE', 'RI', 'A3SS', 'A5SS', 'MXE') for x in ids):
         return 'KF-NESTED'
     if ids[0].startswith('FUSION-') and any(x.startswith('2-') for x in ids) \
-            and any(_frameshift_id(x[2:]) for x in ids if x.startswith('1-')):
-        return 'KF-FUSION-ACCEPTOR-VAR'     # entry itself names a donor-side frameshift and an acceptor-side record
+            and (b.get('fusion_donor_fs') or any(_frameshift_id(x[2:]) for x in ids if x.startswith('1-'))):
+        return 'KF-FUSION-ACCEPTOR-VAR'     # entry names an acceptor-side record and the donor part carries a frameshifting record
     if not rep:
         return None
     where = rep.get('where') or {}
     added, dropped = where.get('added', {}), where.get('dropped', {})
+    if b.get('circular'):
+        # circRNA graphs evaluate 'silent' for an SNV on the circular sequence with gene coordinates (wrong codon context):
+        # a non-silent SNV can be taken for silent and left out of the header - wherever it lies
+        if rep['add'] and not rep['drop'] and all(x.startswith('SNV-') for x in rep['add']):
+            return 'KF-LABEL-CIRC-SILENT-SNV'
+        # a circle barely longer than the peptide: every record of the circle is passed again in the lap before the peptide
+        if b.get('circle_nt') and b['circle_nt'] <= 3 * len(b['pep']) + 9:
+            added = {k: 'upstream' for k in added}
+            dropped = {k: 'upstream' for k in dropped}
     if set(rep['add']) - set(added) or set(rep['drop']) - set(dropped):
         return None         # could not be located: not attributable
     vals = list(added.values()) + list(dropped.values())
